@@ -515,9 +515,9 @@ struct TemplateCore {
 
                                     if (!skip) {
                                         if (tag.TrueOffset < tag.FalseOffset) {
-                                            tag.FalseTagsStartID = SizeT8(id);
+                                            tag.FalseTagsStartID = SizeT16(id);
                                         } else {
-                                            tag.TrueTagsStartID = SizeT8(id);
+                                            tag.TrueTagsStartID = SizeT16(id);
                                         }
                                     }
                                 } else if ((tag.TrueOffset == SizeT16{0}) && (tag.FalseOffset == SizeT16{0})) {
